@@ -41,6 +41,23 @@ def overlay_first(ctx, rule='C07.overlay-first'):
                 none_t = tg.get(0, oth)
                 if vb not in fn.reach_from([0], avoid_edges={(sbb, none_t)}):
                     behind = True
+            # the lookup sits in a folded accessor (`node_by_page(id) -> Option<..>`): the test is made on the Option the accessor returns, which depends on the lookup
+            if not behind:
+                for b2 in fn.reachable_blocks():
+                    t2 = fn.term(b2)
+                    if t2['k'] != 'switch':
+                        continue
+                    dl2 = op_local(t2['discr'])
+                    src = [st for st in fn.blocks[b2]['stmts'] if st['k'] == 'assign' and st['p']['l'] == dl2 and st['rv']['k'] == 'discr']
+                    if not src or 'Option<' not in fn.locals[src[0]['rv']['p']['l']]['ty']:
+                        continue
+                    locs2, _ = du.slice_local(src[0]['rv']['p']['l'])
+                    if lt['dest']['l'] not in locs2:
+                        continue
+                    tg2 = dict((v, x) for v, x in t2['targets'])
+                    none2 = tg2.get(0, t2['otherwise'])
+                    if vb not in fn.reach_from([0], avoid_edges={(b2, none2)}):
+                        behind = True
             else:
                 # bool result (contains_key): view behind the false edge
                 nt = fn.term(lt['target']) if lt['target'] is not None else None
